@@ -42,6 +42,8 @@ def coherent(chk, repo, clause):
 
 
 def run(chk, repo, tier):
+    from .common import no_hidden_state
+    no_hidden_state(chk, repo, 'C03')
     chk.clause('C03-a', 'modulus only after coherent combination (reduce before |.|^2)', 2)
     chk.clause('C03-b', 'merge adds complex data; the complex field inserts with intensity=False', 2)
     chk.clause('C03-d', 'per segment the same slice indexes amplitude, mask and OPD and feeds the offset; index n selects mask and tilt slot', 8)
